@@ -86,6 +86,12 @@ inductive NEff where
   | armTimer (owner : String) (slot : Nat) (e : Int) (cb : ICb)   -- expires_at + async_wait on an internal timer
   | armAfter (owner : String) (slot : Nat) (d : Int) (cb : ICb)   -- expires_after + async_wait
   | cancelTimer (owner : String) (slot : Nat)
+  -- TCP control flow that must see the effects of earlier forwards (a first-hop tail-drop
+  -- notifies the sender synchronously, in the middle of the loop that sent the packet)
+  | tcpWrite (sock : String) (h : Nat)         -- run the segmentation loop for the stored write `h`
+  | tcpResend (sock : String)                  -- the ACK path's retransmission loop
+  | tcpAckPost (sock : String) (wasBlocked : Bool) (acked : Nat)   -- window growth + writer wake-up
+  | tcpWake (sock : String)                    -- maybe_wakeup_writer()
   | pcapUdp (t : Int) (src dst : Ep) (payload : List UInt8)
   | pcapTcp (t : Int) (src dst : Ep) (seq : Nat) (payload : List UInt8)
   deriving Repr
